@@ -175,7 +175,8 @@ CLAIMED.update({
         "design": "DESIGN.md section 3 C06",
     },
     "C07": {
-        "text": "Bounded check (labelled bounded, not counted as proved) of the real compute_delta/_walk_diff/apply_delta/_set_path/_del_path on "
+        "text": "Mixed, and reported as such in the evidence (obligations = proved ones only; the bounded family is listed under coverage.bounded and never "
+                "counted as proved). Bounded check of the real compute_delta/_walk_diff/apply_delta/_set_path/_del_path on "
                 "symbolic JSON trees up to depth 2 x 2 keys per level (203 shape pairs in the quick tier): round trip, inputs untouched, "
                 "delta sections, delta empty iff equal; proved lemma path_codec (split(join(ks)) == ks iff no key contains '.' and the path "
                 "is non-empty; z3+cvc5 strings, unbounded). The round trip holds for dot-free non-empty keys and fails for '' / '.' keys "
@@ -216,7 +217,6 @@ CLAIMED["C06"]["text"] += (" The edge re-keying loops of write_snapshot and load
 CLAIMED["C06"]["note"] = CLAIMED["C06"]["note"].replace("write_snapshot / load_latest_snapshot end to end and the byte-for-byte fixpoint are not under contract",
     "write_snapshot / load_latest_snapshot end to end are not under contract (the byte-for-byte fixpoint is decided only as: sanitiser idempotent + "
     "edge order preserved by both re-keying loops + json.dumps deterministic)")
-CLAIMED["C07"]["category"] = "exploration"
 CLAIMED["C07"]["text"] += (" Plus a verified frame clause (Engine F): read_snapshot, write_snapshot_auto, load_latest_snapshot, compute_delta, "
     "apply_delta and every same-module function they call keep no state between calls (no module-level mutable container, global rebinding or "
     "memoising decorator), so what the reader returns depends on its arguments and the files only.")
